@@ -382,6 +382,7 @@ contract(
     post_exc=ERR_INSIDE,
     raises={"LiquidSyntaxError": None},
     modifies=SCAN_MOD,
+    assumed="nested scanning loops with recursion into accept_token; contract checked at run time by the thorough tier only",
 )
 
 contract(
@@ -400,6 +401,7 @@ contract(
     post_exc=ERR_INSIDE,
     raises={"LiquidSyntaxError": None},
     modifies=["self.pos", "self.start", "self.path_stack"],
+    assumed="path-stack manipulation over aliased heap objects; contract checked at run time by the thorough tier only",
 )
 
 contract(
